@@ -191,10 +191,13 @@ func init() {
 		if err != nil {
 			chk.Fatalf("%v", err)
 		}
-		if err := sc.PushConfig("scrape_configs:\n- job_name: j1\n  scrape_timeout: 10s\n  static_configs:\n  - targets: [\"x:1\"]\n"); err != nil {
+		// j1: a plain job; j2: a job whose limits and metric relabel rules Prometheus applies to what it receives
+		// (they must not change what the proxy relays)
+		if err := sc.PushConfig("scrape_configs:\n- job_name: j1\n  scrape_timeout: 10s\n  static_configs:\n  - targets: [\"x:1\"]\n" +
+			"- job_name: j2\n  scrape_timeout: 10s\n  sample_limit: 3\n  label_limit: 1\n  label_value_length_limit: 5\n  metric_relabel_configs:\n  - {source_labels: [__name__], regex: \"m.*|metric_number_1.*\", action: drop}\n  static_configs:\n  - targets: [\"y:1\"]\n"); err != nil {
 			chk.Fatalf("%v", err)
 		}
-		if err := sc.Update(map[string][]*target.Target{"j1": {c14Target(1, [2]int64{1, 1})}}); err != nil {
+		if err := sc.Update(map[string][]*target.Target{"j1": {c14Target(1, [2]int64{1, 1})}, "j2": {c14Target(2, [2]int64{1, 1})}}); err != nil {
 			chk.Fatalf("%v", err)
 		}
 		payloads := c12Payloads(c.Thorough())
@@ -205,6 +208,8 @@ func init() {
 		}
 		r.DevBound = bound
 		var writeCap int
+		jobName, jobHash := "j1", uint64(1)
+		var wireFn func(data []byte) []byte // how a gzip body is laid out on the wire (default: one member)
 		one := func(name string, data []byte, gzipOn, assigned bool, sched []int, eofData bool, explore bool) {
 			if len(data) > 4096 {
 				// the parser's pooled buffers make the number of reads (hence writes) of a large body
@@ -219,12 +224,15 @@ func init() {
 			wire = data
 			if gzipOn {
 				wire = gz(data)
+				if wireFn != nil {
+					wire = wireFn(data)
+				}
 			}
-			h := uint64(1)
+			h := jobHash
 			if !assigned {
 				h = 999
 			}
-			u := rig.ProxyURL("j1", h, "http", "t:80", "/metrics", nil)
+			u := rig.ProxyURL(jobName, h, "http", "t:80", "/metrics", nil)
 			r.States++
 			var w *shortWriter
 			run := func(x *vrt.X) {
@@ -351,6 +359,55 @@ func init() {
 				}
 			}
 		}
+		// ---- a job with sample / label limits and dropping metric relabel rules: the relay is the same ----------
+		jobName, jobHash = "j2", 2
+		for _, name := range chk.SortedKeys(payloads) {
+			data := payloads[name]
+			for _, gzipOn := range []bool{false, true} {
+				wl := len(data)
+				if gzipOn {
+					wl = len(gz(data))
+				}
+				for _, assigned := range []bool{true, false} {
+					one("limits-job:"+name, data, gzipOn, assigned, nil, false, false)
+					for _, p := range []int{1, 7, 64, wl / 2, wl - 1} {
+						if p > 0 && p < wl {
+							one("limits-job:"+name, data, gzipOn, assigned, []int{p}, false, false)
+							one("limits-job:"+name, data, gzipOn, assigned, repeatInt(p, 40), false, false)
+						}
+					}
+				}
+			}
+		}
+		jobName, jobHash = "j1", 1
+		// ---- gzip bodies made of several members (RFC 1952 allows concatenation; a decompressor yields the
+		// concatenation of all members): every cut of the payload into two or three members, empty members ----
+		for _, name := range []string{"two-lines", "comments-blank", "mix200", "70KiB"} {
+			data := payloads[name]
+			var cuts [][]int
+			if len(data) <= 16 {
+				for a := 0; a <= len(data); a++ {
+					for b := a; b <= len(data); b++ {
+						cuts = append(cuts, []int{a, b})
+					}
+				}
+			} else {
+				for _, a := range []int{0, 1, len(data) / 3, len(data) - 1, len(data)} {
+					cuts = append(cuts, []int{a, a}, []int{a, (a + len(data)) / 2})
+				}
+			}
+			for _, cu := range cuts {
+				cu := cu
+				wireFn = func(d []byte) []byte {
+					return append(append(append([]byte{}, gz(d[:cu[0]])...), gz(d[cu[0]:cu[1]])...), gz(d[cu[1]:])...)
+				}
+				wl := len(wireFn(data))
+				one(fmt.Sprintf("gzip-members:%s", name), data, true, true, nil, false, false)
+				one(fmt.Sprintf("gzip-members:%s", name), data, true, true, []int{wl / 2}, false, false)
+				one(fmt.Sprintf("gzip-members:%s", name), data, true, false, repeatInt(13, 200), false, false)
+			}
+		}
+		wireFn = nil
 		// ---- two scrapes overlapping in time (Prometheus scrapes targets concurrently): scrape B runs
 		// completely while scrape A is in the middle of its body; both must stay byte exact ------------
 		if c.Part == 0 {
